@@ -1,3 +1,4 @@
+pub mod listing;
 pub mod model;
 pub mod project;
 pub mod reader;
